@@ -85,6 +85,8 @@ func (c *expCtx) exp(e *Expr) string {
 		return "(" + c.exp(e.Args[0]) + " " + goOps[e.S] + " " + c.exp(e.Args[1]) + ")"
 	case "not":
 		return "!" + c.exp(e.Args[0])
+	case "neg":
+		return "(0 - " + c.exp(e.Args[0]) + ")"
 	case "sliceLit":
 		return TList(e.T).Go() + "{" + c.list(e.Args) + "}"
 	case "xmapLit":
